@@ -103,15 +103,17 @@ def run_c07(tier, seed):
         binp = ck.build(fl, "race_driver")
         for kind in KINDS:
             for rep in range(reps):
-                jobs.append((fl, binp, kind, rep, 4 if rep % 2 == 0 else 8))
+                jobs.append((fl, binp, kind, rep, 4 if rep % 2 == 0 else 8, "all"))
+            for rep in range(2 if tier == "quick" else 6):
+                jobs.append((fl, binp, kind, 100 + rep, 4 if rep % 2 == 0 else 8, "lookup"))
 
     def run(job):
-        fl, binp, kind, rep, threads = job
+        fl, binp, kind, rep, threads, mixname = job
         base = os.path.join(workdir, "%s-%s-%d" % (fl, kind, rep))
         env = dict(os.environ)
         env["TSAN_OPTIONS"] = "halt_on_error=0:exitcode=0:log_path=%s.tsan:history_size=4:report_signal_unsafe=0" % base
         cmd = [binp, "--kind", kind, "--threads", str(threads), "--bursts", str(bursts), "--ops", str(ops),
-               "--seed", str(ck.mix_seed(seed, rep)), "--out", base + ".json"]
+               "--seed", str(ck.mix_seed(seed, rep)), "--out", base + ".json", "--mix", mixname]
         try:
             r = subprocess.run(cmd, capture_output=True, text=True, env=env, timeout=1800)
         except subprocess.TimeoutExpired:
@@ -127,7 +129,7 @@ def run_c07(tier, seed):
     watchdog = 0
     with cf.ThreadPoolExecutor(max(1, ck.NCPU // 4)) as ex:
         for job, status, payload, logs in ex.map(run, jobs):
-            fl, _, kind, rep, threads = job
+            fl, _, kind, rep, threads, mixname = job
             for rp in parse_tsan_logs(logs):
                 rp["kind"] = kind
                 rp["flavour"] = fl
